@@ -39,6 +39,7 @@ const (
 	c18Tuple
 	c18Array // fixed-size array: value semantics (c18Copy copies the elements); ref is a *c18SliceV over the whole backing
 	c18Func  // function value: closure, method value or declared function (ref is a *c18FuncV)
+	c18Map   // map value with reference semantics (ref is a *c18MapV, see c18_map.go); a nil map is c18Nil
 )
 
 // c18FuncV is a function value: a function literal with the frame it was created in (variables are captured by
@@ -266,6 +267,7 @@ type c18Machine struct {
 	p         *Program
 	funcCache map[*types.Func]*FuncInfo
 	globals   map[types.Object]*c18Val // package-level variables (memo + overrides)
+	globalBad map[types.Object]string  // package-level variables whose init() could not be evaluated (see c18_map.go)
 	override  map[types.Object]string  // string overrides of package-level variables (legacy-sgr variant)
 	sink      SinkFn                   // terminal sink (render region); nil for whole-function runs
 	out       strings.Builder
@@ -346,6 +348,7 @@ func newC18Machine(p *Program) *c18Machine {
 func (m *c18Machine) setOverrides(o map[types.Object]string) {
 	m.override = o
 	m.globals = map[types.Object]*c18Val{}
+	m.globalBad = nil
 }
 
 func (m *c18Machine) abort(format string, a ...any) {
@@ -426,6 +429,9 @@ func (m *c18Machine) pkgOf(obj types.Object) *packages.Package {
 
 // global returns the storage of a package-level variable, initialised from its declaration.
 func (m *c18Machine) global(obj types.Object) *c18Val {
+	if msg, bad := m.globalBad[obj]; bad {
+		m.abort("%s", msg)
+	}
 	if b, ok := m.globals[obj]; ok {
 		return b
 	}
@@ -460,6 +466,7 @@ func (m *c18Machine) global(obj types.Object) *c18Val {
 						m.abort("package-level variable %s has a multi-value initialiser", obj.Name())
 					}
 					m.globals[obj] = &v
+					m.runInits(pk, obj)
 					return &v
 				}
 			}
@@ -952,6 +959,8 @@ func (m *c18Machine) lenOf(v c18Val) (int, bool) {
 		return sl.hi - sl.lo, true
 	case c18Nil:
 		return 0, true
+	case c18Map:
+		return len(v.mp().keys), true
 	case c18Ptr: // len(p) of a pointer to an array
 		if t := v.ptr(); t != nil && t.k == c18Array {
 			sl := t.slice()
@@ -971,6 +980,12 @@ func (m *c18Machine) builtin(fr *c18Frame, name string, call *ast.CallExpr) c18V
 		return c18Val{}
 	case "make":
 		t := fr.info.TypeOf(call.Args[0])
+		if mt, ok := t.Underlying().(*types.Map); ok {
+			for _, a := range call.Args[1:] {
+				m.eval(fr, a) // size hint: evaluated for its effects only
+			}
+			return c18NewMap(mt)
+		}
 		if _, ok := t.Underlying().(*types.Slice); !ok {
 			m.abort("make of %s", t)
 		}
@@ -1030,6 +1045,9 @@ func (m *c18Machine) builtin(fr *c18Frame, name string, call *ast.CallExpr) c18V
 			return c18Val{k: c18Slice, ref: &c18SliceV{arr: &arr, lo: 0, hi: len(arr)}}
 		}
 		m.abort("append to an unknown slice")
+	case "delete":
+		m.mapDelete(fr, call)
+		return c18Val{}
 	case "panic":
 		m.gopanic("explicit panic")
 	}
@@ -1137,6 +1155,10 @@ func (m *c18Machine) eval(fr *c18Frame, e ast.Expr) c18Val {
 		}
 		m.abort("qualified identifier %s is not a variable or constant", types.ExprString(e))
 	case *ast.IndexExpr:
+		if mt := c18MapTypeOf(info, e.X); mt != nil {
+			v, _, _ := m.mapIndex(fr, e, mt)
+			return v
+		}
 		x := m.eval(fr, e.X)
 		if x.k == c18Ptr && x.ptr() != nil && x.ptr().k == c18Array {
 			x = *x.ptr()
@@ -1447,6 +1469,8 @@ func (m *c18Machine) compositeOf(fr *c18Frame, e *ast.CompositeLit, t types.Type
 			arr = []c18Val{}
 		}
 		return c18Val{k: kind, ref: &c18SliceV{arr: &arr, lo: 0, hi: len(arr)}}
+	case *types.Map:
+		return m.mapLiteral(fr, e, t, u)
 	}
 	m.abort("composite literal of %s", t)
 	return c18Val{}
@@ -1519,6 +1543,9 @@ func (m *c18Machine) lvalue(fr *c18Frame, e ast.Expr) *c18Val {
 		}
 		return box
 	case *ast.IndexExpr:
+		if mt := c18MapTypeOf(info, e.X); mt != nil {
+			return m.mapSlot(fr, e, mt)
+		}
 		x := m.eval(fr, e.X)
 		if x.k == c18Ptr && x.ptr() != nil && x.ptr().k == c18Array {
 			x = *x.ptr()
@@ -1638,7 +1665,13 @@ func (m *c18Machine) assignOp(fr *c18Frame, s *ast.AssignStmt) {
 	}
 	var vals []c18Val
 	if len(s.Rhs) == 1 && len(s.Lhs) > 1 {
-		v := m.eval(fr, s.Rhs[0])
+		v, isMapOk := c18Val{}, false
+		if len(s.Lhs) == 2 {
+			v, isMapOk = m.mapCommaOk(fr, s.Rhs[0])
+		}
+		if !isMapOk {
+			v = m.eval(fr, s.Rhs[0])
+		}
 		tu, ok := v.ref.([]c18Val)
 		if v.k != c18Tuple || !ok || len(tu) != len(s.Lhs) {
 			if v.k == c18Unknown {
@@ -1709,6 +1742,21 @@ func (m *c18Machine) stmt(fr *c18Frame, s ast.Stmt, label string) c18Ctl {
 			}
 			if gd.Tok == token.CONST {
 				continue
+			}
+			if len(vs.Names) == 2 && len(vs.Values) == 1 {
+				if tu, isMapOk := m.mapCommaOk(fr, vs.Values[0]); isMapOk { // var v, ok = m[k]
+					parts, _ := tu.ref.([]c18Val)
+					for i, n := range vs.Names {
+						if obj := fr.info.Defs[n]; obj != nil && n.Name != "_" {
+							var v c18Val
+							if tu.k == c18Tuple && len(parts) == 2 {
+								v = parts[i]
+							}
+							fr.env[obj] = &v
+						}
+					}
+					continue
+				}
 			}
 			for i, n := range vs.Names {
 				obj := fr.info.Defs[n]
@@ -1791,7 +1839,7 @@ func (m *c18Machine) stmt(fr *c18Frame, s ast.Stmt, label string) c18Ctl {
 		}
 	case *ast.RangeStmt:
 		x := m.eval(fr, s.X)
-		var elems []c18Val
+		var elems, mapKeys []c18Val
 		isStr := false
 		if x.k == c18Ptr && x.ptr() != nil && x.ptr().k == c18Array {
 			x = *x.ptr()
@@ -1807,6 +1855,15 @@ func (m *c18Machine) stmt(fr *c18Frame, s ast.Stmt, label string) c18Ctl {
 		case c18Nil:
 		case c18Str:
 			isStr = true
+		case c18Map:
+			mv := x.mp()
+			if len(mv.keys) > 1 {
+				m.abort("range over a map with %d entries (iteration order is unspecified): %s", len(mv.keys), types.ExprString(s.X))
+			}
+			mapKeys = append(mapKeys, mv.keys...)
+			for _, pv := range mv.vals {
+				elems = append(elems, *pv)
+			}
 		default:
 			m.abort("range over %s", types.ExprString(s.X))
 		}
@@ -1854,7 +1911,11 @@ func (m *c18Machine) stmt(fr *c18Frame, s ast.Stmt, label string) c18Ctl {
 			}
 		} else {
 			for i := range elems {
-				if ctl, stop := iter(c18IntV(int64(i)), elems[i]); stop {
+				k := c18IntV(int64(i))
+				if mapKeys != nil {
+					k = c18Copy(mapKeys[i])
+				}
+				if ctl, stop := iter(k, elems[i]); stop {
 					return ctl
 				}
 			}
